@@ -18,21 +18,34 @@ WRITER_NANOS = {'as_nanos': 1, 'as_micros': 10**3, 'as_millis': 10**6, 'as_secs'
 READER_NANOS = {'from_nanos': 1, 'from_micros': 10**3, 'from_millis': 10**6, 'from_secs': 10**9}
 
 
+INT_WIDTH = {'u8': 8, 'u16': 16, 'u32': 32, 'u64': 64, 'usize': 64, 'u128': 128, 'i8': 7, 'i16': 15, 'i32': 31, 'i64': 63, 'isize': 63, 'i128': 127}
+FN_WIDTH = {'as_nanos': 128, 'as_micros': 128, 'as_millis': 128, 'as_secs': 64}
+
+
 def conv_of_closure(tonic, cl):
-    """analyse a conversion closure |d| d.as_x() [/ k ...] -> (as_fn, divisor)"""
+    """analyse a conversion closure |d| d.as_x() [/ k ...] [as T] -> (as_fn, divisor, narrowest integer width the value passes through)"""
     rets = mirlib.returned_terms(cl)
     if len(rets) != 1:
         raise CheckError('UNRECOGNISED: conversion closure %s has %d return definitions' % (cl.path, len(rets)))
     t = rets[0][1]
     div = 1
-    while t[0] == 'bin' and t[1] == 'Div':
-        k = const_val(t[3])
-        if not isinstance(k, int):
-            raise CheckError('UNRECOGNISED: non-constant divisor in %s' % cl.path)
-        div *= k
-        t = t[2]
+    width = 128
+    while True:
+        if t[0] == 'cast' and t[1] == 'IntToInt':
+            width = min(width, INT_WIDTH.get(t[3], 0))
+            t = t[2]
+        elif is_call(t, name='into') or is_call(t, name='from'):
+            t = t[2][0]
+        elif t[0] == 'bin' and t[1] == 'Div':
+            k = const_val(t[3])
+            if not isinstance(k, int):
+                raise CheckError('UNRECOGNISED: non-constant divisor in %s' % cl.path)
+            div *= k
+            t = t[2]
+        else:
+            break
     if t[0] == 'call' and t[3] in WRITER_NANOS and 'Duration' in t[1]:
-        return t[3], div
+        return t[3], div, width
     raise CheckError('UNRECOGNISED: conversion closure %s returns %s' % (cl.path, show(t)))
 
 
@@ -65,7 +78,8 @@ def run(R):
                 raise CheckError('UNRECOGNISED: try_format conversion argument is not a closure: %s' % show(clo))
             cl = tonic.body(clo[1]['def'])
             R.saw(cl)
-            fn, div = conv_of_closure(tonic, cl)
+            fn, div, width = conv_of_closure(tonic, cl)
+            R.check(width >= FN_WIDTH[fn], 'C09.R1', 'conv-full-width:%s' % unit, site(cl), 'Duration::%s() yields %d bits and reaches the 8-digit test through a %d-bit integer (a narrowing cast wraps: a huge timeout would be written as a tiny one)' % (fn, FN_WIDTH[fn], width))
             return unit, fn, div, cl
         if not is_call(term, name='try_format'):
             raise CheckError('UNRECOGNISED: head of the or_else chain is %s' % show(term))
@@ -102,7 +116,10 @@ def run(R):
         okg = False
         for s in sws:
             o = mirlib.norm_cmp(tf.origin(tf.term(s)['on']))
-            if o[0] == 'bin' and o[1] == 'Gt' and const_val(o[3]) == sp['max_value'] and is_call(strip_refs(o[2]), name='into'):
+            lhs = strip_refs(o[2]) if o[0] == 'bin' else None
+            while lhs and (is_call(lhs, name='into') or (lhs[0] == 'cast' and INT_WIDTH.get(lhs[3], 0) >= 64)):
+                lhs = strip_refs(lhs[2][0] if lhs[0] == 'call' else lhs[2])
+            if o[0] == 'bin' and o[1] == 'Gt' and const_val(o[3]) == sp['max_value'] and is_call(lhs, name='call_once') and show(lhs[2][0]).startswith('arg') and 'convert' in show(lhs[2][0]):
                 edges = tf.switch_edges(s)
                 true_t = [tgt for tgt, vals in edges.items() if vals == ['else'] or (0 not in vals and 'else' not in vals)]
                 nones = [bb for bb, i, p, a, ops in mirlib.aggregates(tf, 'option::Option', 'None') if p['l'] == 0]
